@@ -127,7 +127,14 @@ class C07(Prop):
     def nontrivial(self, case, impl_out):
         return "prog" in impl_out and any(impl_out["points"]) and ("scf.for" in case["src"] or "scf.if" in case["src"])
 
+    def mutants(self, case, rng):
+        return ac.mutants(case, rng) if "src" in case else iter(())
+
     def shrink(self, case):
+        if "src" not in case:
+            return
+        for t in ac.shrink_src(case["src"]):
+            yield dict(case, src=t)
         lines = case["src"].split("\n")
         # delete one top-level statement group at a time (keep it parseable: only lines at indent 2 without braces)
         for i, l in enumerate(lines):
